@@ -284,7 +284,9 @@ def run_case(case, obs):
     else:
         tol = None  # only one-sided / structural assertions
     tol_vec = 2e-2 if (tol == 1e-3) else tol
-    obs.nontrivial = bool(np.linalg.matrix_rank(Mref) >= 2 or k > 1)
+    numrank = int(np.linalg.matrix_rank(Mref))
+    obs.tag(rank_deficient=bool(numrank < min(n2, p2)))
+    obs.nontrivial = bool(numrank >= 2 or k > 1)
 
     # ---- read the public results back by label ---------------------------------
     coords = xu.labels(b["X"], ("time",) + tuple(b["fdims"]))
